@@ -79,7 +79,7 @@ func c19Compaction(c *Ctx) {
 	c.Rule(rule, "SSA dataflow in slidingWindow.cleaner: every value stored to samples is a reslice of the old samples, an empty fresh slice, or a fresh slice that is the destination of a copy from the old samples before the store (never a copy source, never a non-empty fresh slice that is appended to); the store is not inside the loop that scans the slice being replaced")
 	fn := c.Func("metrics", "(*slidingWindow).cleaner")
 	c.Examined(fn)
-	fS := c.Field("metrics", "slidingWindow", "samples")
+	fS := c.tabledFieldByName("metrics", "slidingWindow", "samples")
 	fromOld := func(v ssa.Value) bool { // a (re)slice of the loaded samples
 		for x := range backSlice(v, func(v ssa.Value) bool { _, isCall := v.(*ssa.Call); return isCall }) {
 			if isFieldLoad(x, fS) {
@@ -405,14 +405,40 @@ func c19Outcomes(c *Ctx) {
 	seen := map[string]int{}
 	for _, fn := range []*ssa.Function{wfn, serve} {
 		c.Examined(fn)
+		type incSite struct {
+			name string
+			at   *ssa.BasicBlock
+			ci   ssa.CallInstruction
+		}
+		var sites []incSite
 		for _, ci := range callInstrs(fn) {
 			name, isInc := isStatsIncrement(ci)
+			if !isInc {
+				continue
+			}
+			if name != "" {
+				sites = append(sites, incSite{name, ci.Block(), ci})
+				continue
+			}
+			// the key chosen on several branches and incremented once (a phi of constants): one site per constant, with
+			// the facts of the edge that chooses it
+			for _, leaf := range phiLeaves(ci.Common().Args[0]) {
+				if s, ok := stringConst(leaf.V); ok {
+					sites = append(sites, incSite{s, leaf.At, ci})
+				}
+			}
+		}
+		for _, st := range sites {
+			name, ci := st.name, st.ci
 			preds, tabled := table[name]
-			if !isInc || !tabled {
+			if !tabled {
 				continue
 			}
 			seen[name]++
-			facts := factsAt(ci.Block())
+			facts := factsAt(st.at)
+			if st.at != ci.Block() {
+				facts = append(facts, factsAt(ci.Block())...)
+			}
 			var missing []string
 			for _, p := range preds {
 				hit := false
